@@ -65,6 +65,8 @@ class Sequence(compound.CompoundQuery):
     def __eq__(self, other):
         return (other and type(self) is type(other)
                 and self.subqueries == other.subqueries
+                and self.slop == other.slop
+                and self.ordered == other.ordered
                 and self.boost == other.boost)
 
     def __repr__(self):
